@@ -282,3 +282,31 @@ class _TextOver(object):
 
     def __iter__(self):
         return iter(self.read().splitlines(True))
+
+
+class ShortTextStream(object):
+    """Text stream whose read(n) returns fewer characters than asked for
+    while more text remains (never an empty string before the end): what a
+    pipe, a socket file or a decoding wrapper may legally do. The chunk sizes
+    follow a fixed cycle, so a run is repeatable."""
+
+    CYCLE = (1, 4, 7, 16, 19, 3, 1000, 2)
+
+    def __init__(self, text, phase=0):
+        self._t = text
+        self._p = 0
+        self._k = phase
+
+    def read(self, n=-1):
+        if n is None or n < 0:
+            out = self._t[self._p:]
+            self._p = len(self._t)
+            return out
+        m = min(n, self.CYCLE[self._k % len(self.CYCLE)])
+        self._k += 1
+        out = self._t[self._p:self._p + m]
+        self._p += len(out)
+        return out
+
+    def __repr__(self):
+        return "<ShortTextStream>"
